@@ -105,6 +105,8 @@ func fill(cfg vlib.Cfg, sp *caseSpec) {
 		for i := 0; i < 2+sp.Siblings; i++ {
 			sp.Delays = append(sp.Delays, vlib.Pick(r, 0, 0, 1, 3, 10))
 		}
+		// failure-update notify function of the host program
+		sp.Notify = vlib.Pick(r, "", "", "trivial", "reads")
 		// multi-step histories (every second case of the kind)
 		switch sp.Kind {
 		case "start", "start-mgmt":
@@ -207,6 +209,11 @@ func genCases(cfg vlib.Cfg) []caseSpec {
 		add(caseSpec{Kind: "serviceworker", Value: vlib.Pick(rr, coreValues...), Build: vlib.Pick(rr, "plain", "race"),
 			Mgmt: "passes", Repeat: vlib.Pick(rr, 150, 300, 600)})
 	}
+	// a service worker launched before its module was started
+	for i := 0; i < cfg.N(6, 40); i++ {
+		add(caseSpec{Kind: "serviceworker", Value: vlib.Pick(rr, append(coreValues, extraValues...)...), Build: vlib.Pick(rr, "plain", "race"),
+			From: vlib.Pick(rr, "prep", "globalprep"), Repeat: vlib.Pick(rr, 1, 1, 2)})
+	}
 	// the item panics while the module is being stopped
 	for _, k := range workKinds {
 		for i := 0; i < cfg.N(2, 20); i++ {
@@ -222,7 +229,7 @@ func genCases(cfg vlib.Cfg) []caseSpec {
 }
 
 func caseSig(sp caseSpec) string {
-	return fmt.Sprintf("%s%s%s|%v%v%v|%s|%s|%d|%s/%s|b=%s|a=%s|sib=%d %v|%s %v %v", sp.Via, sp.RepCfg, sp.Mgmt, sp.AtStop, sp.Linger, sp.StartItems, sp.Kind, sp.Value, sp.Repeat, sp.SecondKind, sp.SecondValue,
+	return fmt.Sprintf("%s%s%s%s%s|%v%v%v|%s|%s|%d|%s/%s|b=%s|a=%s|sib=%d %v|%s %v %v", sp.Via, sp.RepCfg, sp.Mgmt, sp.From, sp.Notify, sp.AtStop, sp.Linger, sp.StartItems, sp.Kind, sp.Value, sp.Repeat, sp.SecondKind, sp.SecondValue,
 		strings.Join(sp.Before, ","), strings.Join(sp.After, ","), sp.Siblings, sp.Delays, sp.Method, sp.DevMode, sp.Late)
 }
 
@@ -347,6 +354,9 @@ func orchestrate() {
 		std := "stderr-off"
 		if sp.StdErr {
 			std = "stderr-on"
+		}
+		if sp.Part == "life" {
+			rep.Seen("failure_notify_functions", "notify-"+sp.Notify)
 		}
 		if sp.Via != "" {
 			rep.Seen("api_request_paths", sp.Via)
@@ -481,7 +491,7 @@ func markExecuted(m map[string]map[string]bool, sp caseSpec) {
 	for _, cls := range []struct {
 		on  bool
 		sfx string
-	}{{len(sp.StartItems) > 0, "+items"}, {sp.Linger, "+linger"}, {sp.Mgmt != "", "+mgmt-" + sp.Mgmt},
+	}{{len(sp.StartItems) > 0, "+items"}, {sp.Linger, "+linger"}, {sp.Mgmt != "", "+mgmt-" + sp.Mgmt}, {sp.From != "", "+from-" + sp.From}, {sp.Notify != "", "+notify-" + sp.Notify},
 		{!sp.StdErr && sp.RepCfg != "chan" && sp.RepCfg != "", "/quiet"}} {
 		if cls.on {
 			if m[sp.Kind+cls.sfx] == nil {
